@@ -1,4 +1,5 @@
 import I2N.Lemmas.TravReady
+import I2N.Lemmas.TravClean
 import I2N.Model.TravMon
 /-!
 # C05 — States are removed only after every dependant finished, and only if asked
@@ -378,5 +379,288 @@ set_option maxRecDepth 100000 in
 example : exL2.hidden = [1, 3] ∧
     Event.door "net1" "unset" [("vm1", "b")] ["own"] true ∈ (resume exLazy exL2 0 exPass 100).2 := by
   decide +kernel
+
+/-! ## the run-level statement: an `unset` request appears only after the dependants are done
+
+Vocabulary of `Lemmas/TravClean.lean`: `WellFormed g ncls` (decidable: edge end points in range, a worker's id names exactly
+its own copies, the copies of a class are all flat or all parsed, edges recorded at both ends, one copy of a class per
+worker, a flat root without parents, registers for every class, set states only for own objects), `InScope g w v` (the
+test of `default_clean_decision`: the cleaning worker is a `localhost` one or its swarm id occurs in `v`'s id), `ReachC`
+(the reachable states of a pre-parsed graph: steps of real workers with positive fuel), `ReachH … H0` (any initial hidden
+set: lazy expansion). -/
+open I2N.Trav.Clean
+
+/-- Where an `unset` request of a step comes from, for ANY initial hidden set (lazy expansion included): it was sent by the
+acting worker `w` to its OWN pool only (scope `["own"]`), from `sync_states` in `reverse_node` of a node `p`, after the clean
+decision taken in a state `sd` of this step on the graph visible then (`visH g hid`) was positive.  `p` is `w`'s own parsed
+copy (not flat), not a clone source, not a dry run; the request lists only set states of `p` whose removal policy starts
+with `f`; all involved workers have finished `p`; and every involved worker `v` within `w`'s scope has its copy `m` of `p`
+without pending (`UNKNOWN`) result, has dropped every visible dependant `c` of `m` it cares for, and has traversed it
+(`finished` mark of `v` on `c`). -/
+theorem unset_request_provenance (g : Graph) {ncls : Nat} (hW : WellFormed g ncls) {store : Store} {H0 : List Nat} {s : State}
+    (hr : ReachH g ncls store H0 s) (w : Nat) (out : Outcome) (fuel : Nat)
+    (wid : String) (reqs : List (String × String)) (sc : List String) (ok : Bool)
+    (he : Event.door wid "unset" reqs sc ok ∈ (resume g s w out fuel).2) :
+    wid = (g.worker w).id ∧ sc = ["own"] ∧ ok = true ∧
+    ∃ hid sd p, (∀ h ∈ sd.hidden, h ∈ hid) ∧ (∀ h ∈ hid, h ∈ H0) ∧ Upd g H0 w s sd ∧ p < g.nodes.length ∧
+      cleanDecision (visH g hid) sd p w = .ok true ∧
+      ((g.node p).flat = false ∧ (g.node p).cloneSource = false ∧ (g.node p).dryRun = false ∧ g.idIn w p = true) ∧
+      (reqs ≠ [] ∧ ∀ vs ∈ reqs, vs ∈ (g.node p).sets ∧ (unsetModeOf (g.node p) vs.1).toList.head? = some 'f') ∧
+      isFinished g sd p w (-1) = true ∧
+      ∀ v ∈ involved g sd p, InScope g w v = true →
+        ∃ m, (if g.idIn v p then some p else (g.copies p).tail.find? (fun m => g.idIn v m)) = some m ∧
+          (sd.nd m).results.all (fun r => lower r.status != "unknown") = true ∧
+          ∀ c ∈ ((visH g hid).node m).cleanup, relevant g v c.1 = true →
+            v ∈ regWorkers (sd.cr (g.node m).cls).droppedCleanup (some (g.node c.1).cls) ∧
+            ((g.node c.1).flat = false → (sd.nd c.1).finished = some v) := by
+  obtain ⟨hwf, hOb, hF, hS, hC, hT, hK, hSO⟩ := hW
+  have hO := ownerNamesB_sound hOb
+  have hU := relUniq_of hO hF hC
+  have t := hr.trv (GraphWF.of_bool hwf) hT.1 hO.uniq
+  obtain ⟨hid, sd, n, h1, h2, h3, hn, hst, hcd, hev⟩ :=
+    ((resume_ok g H0 (GraphWF.of_bool hwf) hT.1 s w out fuel t).2 _ he).1 wid reqs sc ok rfl
+  have td := t.upd hO.uniq h3
+  have hsn := sameNodes_visH g hid
+  obtain ⟨hw, _, ha, hreq⟩ := syncStates_unset_event (visH g hid) sd n w none wid reqs sc ok hev
+  obtain ⟨hsc, hok⟩ := syncStates_unset_own (visH g hid) sd n w none wid reqs sc ok hev
+  obtain ⟨a1, _, a3, _, _, a6⟩ := accOk_syncAcc ((visH g hid).node n) none
+  have hne : reqs ≠ [] := by rw [hreq]; exact a3 ha
+  have hall : ∀ vs ∈ reqs, vs ∈ (g.node n).sets ∧ (unsetModeOf (g.node n) vs.1).toList.head? = some 'f' := by
+    intro vs hvs
+    rw [hreq] at hvs
+    exact ⟨by rw [← hsn.sets]; exact a6 vs hvs, by rw [← unsetModeOf_sameNodes hsn]; exact a1 vs hvs⟩
+  have hrev : isReversible (g.node n) = true := by
+    obtain ⟨vs, hvs⟩ := List.exists_mem_of_ne_nil _ hne
+    unfold isReversible
+    rw [List.any_eq_true]
+    exact ⟨vs.1, hSO n hn vs (hall vs hvs).1, by rw [(hall vs hvs).2]; rfl⟩
+  obtain ⟨c1, c2, c3, c4⟩ := cleanDecision_true (visH g hid) sd n w hcd
+  obtain ⟨hfin, hinv⟩ := clean_requires_all_ready (visH g hid) sd n w (by rw [isReversible_sameNodes hsn]; exact hrev) hcd
+  refine ⟨by rw [hw, hsn.worker], hsc, hok, hid, sd, n, h1, h2, h3, hn, hcd,
+    ⟨by rw [← hsn.flat]; exact c1, by rw [← sameNodes_cloneSource hsn]; exact c2, by rw [← sameNodes_dryRun hsn]; exact c3,
+      by rw [← idIn_sameNodes hsn]; exact c4⟩,
+    ⟨hne, hall⟩, by rw [← isFinished_sameNodes hsn]; exact hfin, fun v hv hsw => ?_⟩
+  obtain ⟨m, hm, hcr, hres⟩ := hinv v (by rw [involved_sameNodes hsn]; exact hv)
+    (by unfold InScope at hsw; rw [hsn.worker, hsn.worker]; exact hsw)
+  refine ⟨m, ?_, hres, fun c hc hrel => ?_⟩
+  · rw [← hm]
+    simp only [idIn_sameNodes hsn, copies_sameNodes hsn]
+  · have hd := (cleanup_ready_iff (visH g hid) sd m v).mp hcr c hc (by rw [relevant_sameNodes hsn]; exact hrel)
+    rw [hsn.cls, hsn.cls] at hd
+    refine ⟨hd, fun hfc => ?_⟩
+    obtain ⟨p', b1, b2, b3, b4⟩ := td.dropC _ _ v hd
+    have hcl : c.1 < g.nodes.length := (GraphWF.of_bool hwf).cleanup_lt m c (visH_cleanup_sub g hid m c hc)
+    have hpc : p' = c.1 := hU v p' c.1 b1 hcl b2 b3 hrel
+    rw [hpc] at b4
+    exact b4 hfc
+
+/-- **States are removed only after every dependant finished** (pre-parsed graphs; any workers, interleaving, outcomes).
+If a step of worker `w` emits an `unset` request, then
+(1) it is for set states of a node `p` — `w`'s own parsed copy, neither flat nor a clone source nor a dry run — whose
+removal policy starts with `f` (marked for removal), and all involved workers have finished `p`;
+(2) for every worker `v` that is involved in `p` (has picked a copy of it: hypothesis (b)) and lies within the scope the
+clean decision of `w` waits for (hypothesis (a)): `v`'s copy `m` of `p` carries no pending (`UNKNOWN`) result, and every
+dependant `c` of `m` that `v` cares for has been dropped by `v`, carries `v`'s `finished` mark, and NO EXECUTION OF IT IS IN
+FLIGHT: no other worker `u` awaits a test on `c` (`w` itself is inside this very step, not inside a test);
+(3) the request goes to `w`'s own pool only.
+The two hypotheses on `v` are necessary: see `cross_swarm_dependant_in_flight` (a) and
+`lazy_unpicked_dependant_starts_after_unset` (b).  A dependant may keep an `UNKNOWN` placeholder for ever (result never
+reported: `run_test_node` defaults to ERROR and leaves the placeholder), which is why (2) speaks of executions in flight
+and not of placeholders on the dependants. -/
+theorem unset_after_dependants (g : Graph) {ncls : Nat} (hW : WellFormed g ncls) {store : Store} {s : State}
+    (hr : ReachC g ncls store s) (w : Nat) (out : Outcome) (fuel : Nat)
+    (wid : String) (reqs : List (String × String)) (sc : List String) (ok : Bool)
+    (he : Event.door wid "unset" reqs sc ok ∈ (resume g s w out fuel).2) :
+    wid = (g.worker w).id ∧ sc = ["own"] ∧ ok = true ∧
+    ∃ sd p, p < g.nodes.length ∧ (∀ v, v ≠ w → sd.wd v = s.wd v) ∧ cleanDecision g sd p w = .ok true ∧
+      ((g.node p).flat = false ∧ (g.node p).cloneSource = false ∧ (g.node p).dryRun = false ∧ g.idIn w p = true) ∧
+      (reqs ≠ [] ∧ ∀ vs ∈ reqs, vs ∈ (g.node p).sets ∧ (unsetModeOf (g.node p) vs.1).toList.head? = some 'f') ∧
+      isFinished g sd p w (-1) = true ∧
+      ∀ v ∈ involved g sd p, InScope g w v = true →
+        ∃ m, (if g.idIn v p then some p else (g.copies p).tail.find? (fun m => g.idIn v m)) = some m ∧
+          (sd.nd m).results.all (fun r => lower r.status != "unknown") = true ∧
+          ∀ c ∈ (g.node m).cleanup, relevant g v c.1 = true →
+            v ∈ regWorkers (sd.cr (g.node m).cls).droppedCleanup (some (g.node c.1).cls) ∧
+            ((g.node c.1).flat = false → (sd.nd c.1).finished = some v ∧
+              ∀ u, u ≠ w → ∀ ph dir uid tag wait, (s.wd u).pc ≠ .test c.1 ph dir uid tag wait) := by
+  obtain ⟨e1, e2, e3, hid, sd, p, _, h2, h3, hp, hcd, f1, f2, f3, f4⟩ :=
+    unset_request_provenance g hW hr.reachH w out fuel wid reqs sc ok he
+  have hnil : hid = [] := by
+    cases hid with
+    | nil => rfl
+    | cons a r => exact absurd (h2 a List.mem_cons_self) (by simp)
+  subst hnil
+  have ci := hr.cinv hW.hyp hW.2.2.2.2.2.2.1
+  have hO := ownerNamesB_sound hW.2.1
+  have t := hr.reachH.trv (GraphWF.of_bool hW.1) hW.2.2.2.2.2.1.1 hO.uniq
+  refine ⟨e1, e2, e3, sd, p, hp, h3.others, hcd, f1, f2, f3, fun v hv hsw => ?_⟩
+  obtain ⟨m, hm, hres, hch⟩ := f4 v hv hsw
+  refine ⟨m, hm, hres, fun c hc hrel => ?_⟩
+  obtain ⟨hd, hfin⟩ := hch c hc hrel
+  refine ⟨hd, fun hfc => ⟨hfin hfc, fun u hu ph dir uid tag wait hpc => ?_⟩⟩
+  -- only the owner executes a copy: `u = v`
+  obtain ⟨hcl, hidu, _, _⟩ := t.pc u c.1 ph dir uid tag wait hpc
+  have huv : u = v := hO.uniq c.1 hcl hfc u v hidu (relevant_nonflat hrel hfc)
+  subst huv
+  -- `u` has not dropped the node it is executing; `w` registers drops in its own name only
+  have hnd := ci.not_dropped_in_flight u c.1 ph dir uid tag wait hpc
+  rcases h3.dropC _ _ u hd with h | ⟨h, _⟩
+  · exact hnd ⟨_, h⟩
+  · exact hu h
+
+/-- … hence, when all workers wait for each other (one swarm, or `localhost` workers), for EVERY involved worker -/
+theorem unset_after_dependants_one_scope (g : Graph) {ncls : Nat} (hW : WellFormed g ncls) (hS : OneScope g) {store : Store}
+    {s : State} (hr : ReachC g ncls store s) (w : Nat) (hw : w < g.workers.length) (out : Outcome) (fuel : Nat)
+    (wid : String) (reqs : List (String × String)) (sc : List String) (ok : Bool)
+    (he : Event.door wid "unset" reqs sc ok ∈ (resume g s w out fuel).2) :
+    ∃ sd p, p < g.nodes.length ∧ (∀ v, v ≠ w → sd.wd v = s.wd v) ∧
+      ∀ v ∈ involved g sd p,
+        ∃ m, (if g.idIn v p then some p else (g.copies p).tail.find? (fun m => g.idIn v m)) = some m ∧
+          (sd.nd m).results.all (fun r => lower r.status != "unknown") = true ∧
+          ∀ c ∈ (g.node m).cleanup, relevant g v c.1 = true →
+            v ∈ regWorkers (sd.cr (g.node m).cls).droppedCleanup (some (g.node c.1).cls) ∧
+            ((g.node c.1).flat = false → (sd.nd c.1).finished = some v ∧
+              ∀ u, u ≠ w → ∀ ph dir uid tag wait, (s.wd u).pc ≠ .test c.1 ph dir uid tag wait) := by
+  obtain ⟨_, _, _, sd, p, hp, ho, _, _, _, _, h⟩ := unset_after_dependants g hW hr w out fuel wid reqs sc ok he
+  refine ⟨sd, p, hp, ho, fun v hv => h v hv (hS w hw v ?_)⟩
+  unfold involved at hv
+  exact List.mem_range.mp (List.mem_filter.mp hv).1
+
+/-- **No dependant is being executed when a state is removed** (pre-parsed graphs, one scope, the default reuse shape).
+A worker that executes a dependant of its copy of `p` has traversed that copy, so its `finished` mark is on it, so — by
+`is_finished(worker, -1)`, the last test of the clean decision — it is involved, and `unset_after_dependants` applies to
+it.  Hence: whenever a step of `w` emits an `unset` request for states of `p`, NO other worker awaits a test on a node one
+of whose parents is that worker's copy of `p` (`w` itself is inside this step, not inside a test).  This is what is
+guaranteed about workers that have not picked `p` (hypothesis (b)) on a pre-parsed graph: they are not executing a
+dependant; on a lazily expanded graph they may start one AFTERWARDS (`lazy_unpicked_dependant_starts_after_unset`). -/
+theorem unset_no_dependant_in_flight (g : Graph) {ncls : Nat} (hW : WellFormed g ncls) (hS : OneScope g) (hG : GlobalShape g)
+    {store : Store} {s : State} (hr : ReachC g ncls store s) (w : Nat) (hw : w < g.workers.length) (out : Outcome)
+    (fuel : Nat) (wid : String) (reqs : List (String × String)) (sc : List String) (ok : Bool)
+    (he : Event.door wid "unset" reqs sc ok ∈ (resume g s w out fuel).2) :
+    ∃ p, p < g.nodes.length ∧
+      (reqs ≠ [] ∧ ∀ vs ∈ reqs, vs ∈ (g.node p).sets ∧ (unsetModeOf (g.node p) vs.1).toList.head? = some 'f') ∧
+      ∀ u, u ≠ w → ∀ c ph dir uid tag wait, (s.wd u).pc = .test c ph dir uid tag wait →
+        ∀ m ∈ (g.node c).setup.map (·.1), (g.node m).cls = (g.node p).cls → relevant g u m = true → False := by
+  obtain ⟨_, _, _, hid, sd, p, _, h2, h3, hp, _, f1, f2, f3, f4⟩ :=
+    unset_request_provenance g hW hr.reachH w out fuel wid reqs sc ok he
+  have hnil : hid = [] := by
+    cases hid with
+    | nil => rfl
+    | cons a r => exact absurd (h2 a List.mem_cons_self) (by simp)
+  subst hnil
+  have H := hW.hyp
+  have ci := hr.cinv H hW.2.2.2.2.2.2.1
+  have hO := ownerNamesB_sound hW.2.1
+  have hF := hW.2.2.1
+  have t := hr.reachH.trv (GraphWF.of_bool hW.1) hW.2.2.2.2.2.1.1 hO.uniq
+  refine ⟨p, hp, f2, fun u hu c ph dir uid tag wait hpc m hm hmc hmrel => ?_⟩
+  -- `c` was setup-ready for `u` when the test was started: `u` has dropped its copy `m` of `p` as a parent of `c`
+  obtain ⟨hcl, hidu, hcf, hid', _, hb, hready⟩ := t.pc u c ph dir uid tag wait hpc
+  have hnil' : hid' = [] := by
+    cases hid' with
+    | nil => rfl
+    | cons a r => exact absurd (hb a List.mem_cons_self) (by simp)
+  subst hnil'
+  obtain ⟨q, hq, hqm⟩ := List.mem_map.mp hm
+  have hml : m < g.nodes.length := by rw [← hqm]; exact H.wf.setup_lt c q hq
+  have hds := (setup_ready_iff' g s c u).mp hready q hq (by rw [hqm]; exact hmrel)
+  rw [hqm] at hds
+  -- … so `u`'s `finished` mark is on `m`, in `s` and still in `sd`
+  obtain ⟨p', b1, b2, b3, b4⟩ := t.dropS _ _ u hds
+  have hp'm : p' = m := H.uniq u p' m b1 hml b2 b3 hmrel
+  rw [hp'm] at b4
+  have hmf : (g.node m).flat = false := by rw [hF m hml p hp hmc]; exact f1.1
+  have hfin_s : (s.nd m).finished = some u := b4 hmf
+  have hfin_sd : (sd.nd m).finished = some u := by
+    rcases h3.fin m with h | ⟨_, hr', _⟩
+    · rw [h]; exact hfin_s
+    · exact absurd (hO.uniq m hml hmf u w (relevant_nonflat hmrel hmf) (relevant_nonflat hr' hmf)) hu
+  -- … hence `u` is involved, and the run-level statement applies to it
+  have hinv := involved_of_finished g sd p w m u hp f1.1 (hG p hp) f3 hml hmc hfin_sd
+  have hul : u < g.workers.length := by
+    unfold involved at hinv
+    exact List.mem_range.mp (List.mem_filter.mp hinv).1
+  obtain ⟨m', hm', _, hch⟩ := f4 u hinv (hS w hw u hul)
+  obtain ⟨k1, k2, k3⟩ := pickedOf_spec g p u m' hp f1.1 hm'
+  have hmm : m' = m := H.uniq u m' m k1 hml (k2.trans hmc.symm) (relevant_of_idIn k3) hmrel
+  subst hmm
+  have hcm : c ∈ (g.node m').cleanup.map (·.1) := (H.sym m' hml c hcl).mp hm
+  obtain ⟨q', hq', hq'c⟩ := List.mem_map.mp hcm
+  have hrc : relevant g u q'.1 = true := by rw [hq'c]; exact relevant_of_idIn hidu
+  obtain ⟨hd, _⟩ := hch q' hq' hrc
+  rw [hq'c] at hd
+  exact not_in_flight_of_dropped ci t hO h3 hcf (relevant_of_idIn hidu) hd u hu ph dir uid tag wait hpc
+
+/-- The statement that covers lazy expansion (any initial hidden set) is PARTIAL: everything of `unset_after_dependants`
+but the absence of executions in flight, and the dependants are those visible when the decision is taken.  Missing: on a
+lazily expanded graph a node a worker has dropped can get a NEW dependant when the worker expands another flat test for
+itself; the worker then walks up to the dropped node again and — if its rerun rule has flipped meanwhile — may execute it
+again, so "dropped" does not imply "never on the path again" there (the proof of the pre-parsed case rests on exactly that:
+`Lemmas/TravClean.lean`, `CInv`).  And a dependant that is only expanded for a worker that has not picked `p` yet is not
+waited for at all: `lazy_unpicked_dependant_starts_after_unset`. -/
+theorem unset_after_dependants_lazy_partial (g : Graph) {ncls : Nat} (hW : WellFormed g ncls) {store : Store} {H0 : List Nat}
+    {s : State} (hr : ReachH g ncls store H0 s) (w : Nat) (out : Outcome) (fuel : Nat)
+    (wid : String) (reqs : List (String × String)) (sc : List String) (ok : Bool)
+    (he : Event.door wid "unset" reqs sc ok ∈ (resume g s w out fuel).2) :
+    wid = (g.worker w).id ∧ sc = ["own"] ∧ ok = true ∧
+    ∃ hid sd p, (∀ h ∈ sd.hidden, h ∈ hid) ∧ (∀ h ∈ hid, h ∈ H0) ∧ p < g.nodes.length ∧ (∀ v, v ≠ w → sd.wd v = s.wd v) ∧
+      cleanDecision (visH g hid) sd p w = .ok true ∧
+      ((g.node p).flat = false ∧ (g.node p).cloneSource = false ∧ (g.node p).dryRun = false ∧ g.idIn w p = true) ∧
+      (reqs ≠ [] ∧ ∀ vs ∈ reqs, vs ∈ (g.node p).sets ∧ (unsetModeOf (g.node p) vs.1).toList.head? = some 'f') ∧
+      isFinished g sd p w (-1) = true ∧
+      ∀ v ∈ involved g sd p, InScope g w v = true →
+        ∃ m, (if g.idIn v p then some p else (g.copies p).tail.find? (fun m => g.idIn v m)) = some m ∧
+          (sd.nd m).results.all (fun r => lower r.status != "unknown") = true ∧
+          ∀ c ∈ ((visH g hid).node m).cleanup, relevant g v c.1 = true →
+            v ∈ regWorkers (sd.cr (g.node m).cls).droppedCleanup (some (g.node c.1).cls) ∧
+            ((g.node c.1).flat = false → (sd.nd c.1).finished = some v) := by
+  obtain ⟨e1, e2, e3, hid, sd, p, h1, h2, h3, hp, hcd, f1, f2, f3, f4⟩ :=
+    unset_request_provenance g hW hr w out fuel wid reqs sc ok he
+  exact ⟨e1, e2, e3, hid, sd, p, h1, h2, hp, h3.others, hcd, f1, f2, f3, f4⟩
+
+/-! ### non-vacuity and the witnesses of the two hypotheses -/
+
+example : WellFormed exGraph 3 ∧ OneScope exGraph ∧ GlobalShape exGraph := by decide
+example : ReachC exGraph 3 [] exS2 :=
+  reachC_runSched exGraph 3 [] 100 (by decide) _ (by decide) _ ReachC.init
+
+/-- (a) cross-swarm, hypothesis `InScope g w v` (known finding `cleanup:unset-while-dependant-runs:cross-swarm`): `c2.net2` is
+involved in `p` (it reused it and was told to fetch the state from `c1.net1`'s pool) and is executing the dependant `d`
+(node 5, a cleanup child of its copy 1 of `p`) when `c1.net1`, which only waits for involved workers of its own swarm,
+removes the state from its pool.  What IS guaranteed for workers outside the scope: nothing about their dependants; only
+that the request touches the cleaning worker's own pool (`sc = ["own"]`), so copies in other pools stay. -/
+theorem cross_swarm_dependant_in_flight :
+    (WellFormed exCross 4 ∧ ¬ OneScope exCross ∧ InScope exCross 0 1 = false ∧ (5, ["vm1"]) ∈ (exCross.node 1).cleanup) ∧
+    (1 ∈ involved exCross exX3 0 ∧ pcNode (exX3.wd 1).pc = some 5) ∧
+    Event.door "c1.net1" "unset" [("vm1", "p")] ["own"] true ∈ (resume exCross exX3 0 exPass 100).2 :=
+  ⟨by decide +kernel, by decide +kernel, by decide +kernel⟩
+
+/-- why (2) speaks of executions in flight and not of placeholders on the dependants: the result of `c` (node 2) was never
+reported — `run_test_node` gives up after ten waits, defaults to ERROR and leaves the `UNKNOWN` placeholder in the node's
+results for ever; `c` is finished for the worker all the same, and the state of `p` is removed with the placeholder there -/
+theorem dependant_may_keep_unknown_placeholder :
+    ((exX13.nd 2).results.map (·.status) = ["UNKNOWN"] ∧ (exX13.nd 2).finished = some 0 ∧ pcNode (exX13.wd 0).pc = some 4) ∧
+    Event.door "c1.net1" "unset" [("vm1", "p")] ["own"] true ∈ (resume exCross exX13 0 exPass 100).2 :=
+  ⟨by decide +kernel, by decide +kernel⟩
+
+example : ReachC exCross 4 [] exX3 :=
+  reachC_runSched exCross 4 [] 100 (by decide) _ (by decide) _ ReachC.init
+
+/-- (b) not picked yet, hypothesis `v ∈ involved g sd p` (known finding
+`states:lazy-expansion-state-removed-before-the-dependant-worker-picked-its-producer`): on the lazily expanded graph net2
+has expanded the flat test `e` for itself — its copies of `e` (node 3) and of the producer `p` (node 1) exist, `e` is a
+dependant of `p` and not traversed — but runs the other setup `q` first and has not PICKED `p` yet, so it is not involved;
+net1 finds itself the only involved worker and removes the state; afterwards net2 starts `e`, told to fetch the state from
+net1's pool.  What IS guaranteed for a worker that is not involved: it has not picked any copy of `p` (definition of
+`involved`), and the request touches net1's own pool only. -/
+theorem lazy_unpicked_dependant_starts_after_unset :
+    (WellFormed exLazyB 6 ∧ OneScope exLazyB ∧ (3, ["vm1"]) ∈ (exLazyB.node 1).cleanup) ∧
+    (exB2.hidden = [2, 4] ∧ involved exLazyB exB2 0 = [0] ∧ (exB2.nd 3).finished = none) ∧
+    Event.door "net1" "unset" [("vm1", "p")] ["own"] true ∈ (resume exLazyB exB2 0 exPass 100).2 ∧
+    Event.start "net2" "1" "2a1" [("vm1", ":/pool/shared net2:/pool/swarm net1:/pool/swarm")] 1 ∈
+      (resume exLazyB exB3 1 exPass 100).2 :=
+  ⟨by decide +kernel, by decide +kernel, by decide +kernel, by decide +kernel⟩
+
+example : ReachH exLazyB 6 [] [0, 1, 2, 3, 4, 5] exB2 := reachH_runSched exLazyB 6 [] _ 100 _ _ ReachH.init
 
 end I2N.Props.C05
